@@ -50,10 +50,22 @@ import (
 	"iter"
 	"regexp/syntax"
 	"strings"
+	"unicode/utf8"
 	"unsafe"
 
 	"github.com/coregx/coregex/meta"
 )
+
+// nextPos returns the offset just past the code point that starts at pos (pos+1 at or beyond
+// the end of b, and for an invalid byte). This is how far stdlib regexp advances after an
+// empty match, so successive empty matches never land inside a multi-byte code point.
+func nextPos(b []byte, pos int) int {
+	if pos >= len(b) || b[pos] < utf8.RuneSelf {
+		return pos + 1
+	}
+	_, w := utf8.DecodeRune(b[pos:])
+	return pos + w
+}
 
 // stringToBytes converts string to []byte without allocation.
 // This is the Go equivalent of Rust's str.as_bytes() - a zero-cost reinterpret cast.
@@ -804,7 +816,7 @@ func (r *Regex) ReplaceAllLiteral(src, repl []byte) []byte {
 		// This matches Go stdlib behavior (see FindAllIndex for details).
 		//nolint:gocritic // badCond: intentional - checking empty match at lastMatchEnd
 		if start == end && start == lastMatchEnd {
-			pos++
+			pos = nextPos(src, pos)
 			if pos > len(src) {
 				break
 			}
@@ -827,7 +839,7 @@ func (r *Regex) ReplaceAllLiteral(src, repl []byte) []byte {
 
 		switch {
 		case start == end:
-			pos = end + 1
+			pos = nextPos(src, end)
 		case end > pos:
 			pos = end
 		default:
@@ -875,7 +887,7 @@ func (r *Regex) ReplaceAllLiteralString(src, repl string) string {
 
 		//nolint:gocritic // badCond: intentional - checking empty match at lastMatchEnd
 		if start == end && start == lastMatchEnd {
-			pos++
+			pos = nextPos(b, pos)
 			if pos > len(src) {
 				break
 			}
@@ -897,7 +909,7 @@ func (r *Regex) ReplaceAllLiteralString(src, repl string) string {
 
 		switch {
 		case start == end:
-			pos = end + 1
+			pos = nextPos(b, end)
 		case end > pos:
 			pos = end
 		default:
@@ -1064,7 +1076,7 @@ func (r *Regex) ReplaceAll(src, repl []byte) []byte {
 		// This matches Go's stdlib behavior for preventing duplicate empty matches.
 		//nolint:gocritic // badCond: intentional - checking empty match at lastNonEmptyMatchEnd
 		if absStart == absEnd && absStart == lastNonEmptyMatchEnd {
-			pos++
+			pos = nextPos(src, pos)
 			if pos > len(src) {
 				break
 			}
@@ -1088,7 +1100,7 @@ func (r *Regex) ReplaceAll(src, repl []byte) []byte {
 		switch {
 		case absStart == absEnd:
 			// Empty match: advance by 1 to avoid infinite loop
-			pos = absEnd + 1
+			pos = nextPos(src, absEnd)
 		case absEnd > pos:
 			pos = absEnd
 		default:
@@ -1148,7 +1160,7 @@ func (r *Regex) ReplaceAllFunc(src []byte, repl func([]byte) []byte) []byte {
 
 		//nolint:gocritic // badCond: intentional - checking empty match at lastMatchEnd
 		if start == end && start == lastMatchEnd {
-			pos++
+			pos = nextPos(src, pos)
 			if pos > len(src) {
 				break
 			}
@@ -1170,7 +1182,7 @@ func (r *Regex) ReplaceAllFunc(src []byte, repl func([]byte) []byte) []byte {
 
 		switch {
 		case start == end:
-			pos = end + 1
+			pos = nextPos(src, end)
 		case end > pos:
 			pos = end
 		default:
@@ -1222,7 +1234,7 @@ func (r *Regex) ReplaceAllStringFunc(src string, repl func(string) string) strin
 
 		//nolint:gocritic // badCond: intentional - checking empty match at lastMatchEnd
 		if start == end && start == lastMatchEnd {
-			pos++
+			pos = nextPos(b, pos)
 			if pos > len(src) {
 				break
 			}
@@ -1244,7 +1256,7 @@ func (r *Regex) ReplaceAllStringFunc(src string, repl func(string) string) strin
 
 		switch {
 		case start == end:
-			pos = end + 1
+			pos = nextPos(b, end)
 		case end > pos:
 			pos = end
 		default:
@@ -1495,7 +1507,7 @@ func (r *Regex) AllIndex(b []byte) iter.Seq[[2]int] {
 			// This matches Go stdlib behavior.
 			//nolint:gocritic // badCond: intentional - checking empty match at lastMatchEnd
 			if start == end && start == lastMatchEnd {
-				pos++
+				pos = nextPos(b, pos)
 				if pos > len(b) {
 					return
 				}
@@ -1508,7 +1520,7 @@ func (r *Regex) AllIndex(b []byte) iter.Seq[[2]int] {
 				lastMatchEnd = end
 			}
 			if end == pos {
-				pos++
+				pos = nextPos(b, pos)
 			} else {
 				pos = end
 			}
